@@ -5,6 +5,7 @@ package checkpoint
 //vf:use tinyredis
 //vf:job C14 quick VF_C14_Load l0=0..6 l1=0..6
 //vf:job C14 quick VF_C14_Version ver=0..3
+//vf:job C14 quick VF_C14_Load l0=1,4,6 l1=0,5 addr=1
 //vf:job C19 quick VF_C14_Load l0=4 l1=5 secret=1
 //vf:replayE C19 VF_C14_Load
 //vf:job C14 thorough VF_C14_Load3 l0=1..3 l1=0..3 l2=1..3
@@ -22,12 +23,22 @@ import (
 	redigo "github.com/garyburd/redigo/redis"
 )
 
-const (
+const vfCk = "ckpt"
+
+var (
 	vfA  = "a:1"  // our source
 	vfAx = "a:12" // a source whose address extends ours
 	vfB  = "b:1"
-	vfCk = "ckpt"
 )
+
+// vfAddrs selects the address style: 0 = short host:port, 1 = host names that contain dashes (the
+// checkpoint fields are "<address>-runid/-offset/-version", so the address itself may hold the separator)
+func vfAddrs(style int) {
+	vfA, vfAx, vfB = "a:1", "a:12", "b:1"
+	if style == 1 {
+		vfA, vfAx, vfB = "r-a-0:1", "r-a-0:12", "r-a:1"
+	}
+}
 
 type vfWant struct {
 	hasKey    bool
@@ -231,6 +242,7 @@ func vfCheckLoad(r *vfRedis, dbs []int, wants []vfWant) {
 }
 
 func VF_C14_Load() {
+	vfAddrs(vfParam("addr", 0))
 	r := vfNewRedis()
 	ver := 1
 	w0 := vfLayout(r, 0, vfParam("l0", 1), ver)
@@ -240,6 +252,7 @@ func VF_C14_Load() {
 }
 
 func VF_C14_Load3() {
+	vfAddrs(vfParam("addr", 0))
 	r := vfNewRedis()
 	w0 := vfLayout(r, 0, vfParam("l0", 1), 1)
 	w1 := vfLayout(r, 1, vfParam("l1", 0), 1)
@@ -250,6 +263,7 @@ func VF_C14_Load3() {
 
 // version gate: absent / 0 / 1 / 2 on a single own checkpoint
 func VF_C14_Version() {
+	vfAddrs(vfParam("addr", 0))
 	r := vfNewRedis()
 	ver := vfParam("ver", 0) - 1 // -1 = absent
 	w0 := vfLayout(r, 3, 1, ver)
